@@ -77,19 +77,36 @@ def case_reciprocity(case):
     F = np.zeros((2, 2, ncell, ncell))  # [conc/flx, level, m, s]
     D = np.zeros((2, 2, ncell, ncell))  # [conc/flx, level, s, m]
     q0 = np.zeros((ny, nx))
+    nextra = 0
     buf = np.zeros((ny, nx))  # ONE preallocated source map, refilled in place for every forward run (a legitimate usage pattern)
     for m, (j, i) in enumerate(itertools.product(range(ny), range(nx))):
         mp = (i * dx, j * dy)
         if m % 2 == 0 and float(mp[0]).is_integer() and float(mp[1]).is_integer():
             mp = (int(mp[0]), int(mp[1]))  # whole-metre tower coordinates written as integers
-        _, c, f = S(q0, z, prof, dom, levels, meas_pt=mp, footprint=True, **kw)
-        F[0, :, m, :] = np.asarray(c).reshape(2, ncell)
-        F[1, :, m, :] = np.asarray(f).reshape(2, ncell)
+        # the two output heights are requested together or one by one (scalar level), alternating per tower cell and per
+        # side: a footprint for height z[l] must equal the forward response at THAT height however either was asked for
+        if m % 3 == 2:
+            for l, lev in enumerate(levels):
+                _, c, f = S(q0, z, prof, dom, lev, meas_pt=mp, footprint=True, **kw)
+                F[0, l, m, :] = np.asarray(c).reshape(ncell)
+                F[1, l, m, :] = np.asarray(f).reshape(ncell)
+                nextra += 1
+        else:
+            _, c, f = S(q0, z, prof, dom, levels, meas_pt=mp, footprint=True, **kw)
+            F[0, :, m, :] = np.asarray(c).reshape(2, ncell)
+            F[1, :, m, :] = np.asarray(f).reshape(2, ncell)
         buf[...] = 0.0
         buf[j, i] = 1.0
-        _, c, f = S(buf, z, prof, dom, levels, **kw)
-        D[0, :, m, :] = np.asarray(c).reshape(2, ncell)
-        D[1, :, m, :] = np.asarray(f).reshape(2, ncell)
+        if m % 3 == 1:
+            for l, lev in enumerate(levels):
+                _, c, f = S(buf, z, prof, dom, lev, **kw)
+                D[0, l, m, :] = np.asarray(c).reshape(ncell)
+                D[1, l, m, :] = np.asarray(f).reshape(ncell)
+                nextra += 1
+        else:
+            _, c, f = S(buf, z, prof, dom, levels, **kw)
+            D[0, :, m, :] = np.asarray(c).reshape(2, ncell)
+            D[1, :, m, :] = np.asarray(f).reshape(2, ncell)
     v = []
     worst = 0.0
     for w, name in ((1, "flux"), (0, "concentration")):
@@ -112,8 +129,10 @@ def case_reciprocity(case):
     from bldfm.utils import point_measurement
 
     rng = core.case_rng(seed, case)
-    nexec = 2 * ncell
-    for fname, q in sl.fields(rng, ny, nx).items():
+    nexec = 2 * ncell + nextra
+    allf = dict(sl.fields(rng, ny, nx))
+    allf.update(sl.scaled_fields(rng, ny, nx))  # the same statement in other units (tolerances are relative to the forward field)
+    for fname, q in allf.items():
         _, cd, fd = S(q, z, prof, dom, levels, **kw)
         cd, fd = np.asarray(cd).reshape(2, ny, nx), np.asarray(fd).reshape(2, ny, nx)
         nexec += 1
